@@ -240,7 +240,7 @@ func cmdCheck(args []string) int {
 			if v.Inputs == nil {
 				continue
 			}
-			cases = append(cases, replayCase{ID: i, Pkg: p.pkgOfHarness(v.Harness), Harness: v.Harness, Inputs: v.Inputs, expectViolation: &viols[i]})
+			cases = append(cases, replayCase{ID: i, Pkg: p.pkgOfHarness(v.Harness), Harness: v.Harness, Inputs: v.Inputs, Repeat: 200, expectViolation: &viols[i]})
 		}
 		base := len(cases)
 		for i, r := range st.AllInputs {
